@@ -114,6 +114,27 @@ def corr(ctx):
                           nontrivial=a > 1, info={"site": "algebra:FiniteBifieldElement.conjugates", "config": {"m": m, "a": a}}))
             el = A.FiniteBifieldElement(F, a)  # fresh object: minimal_polynomial caches on the element
             add("fminpoly", (P, m, a), lambda: el.minimal_polynomial().value, "algebra:FiniteBifieldElement.minimal_polynomial")
+        # histories on ONE element object (cached minimal polynomial / conjugates must not change later answers): minimal_polynomial -> trace,
+        # conjugates -> trace -> inverse, for elements of proper subfields as well
+        hel = (list(range(min(size, 16))) + [rng.randrange(size) for _ in range(6)]) if m <= 8 else [0, 1, 2]
+        if m % 2 == 0:
+            hel += [1, 6 % size, 7 % size]
+        for a in hel:
+            el = F(a)
+            try:
+                el.minimal_polynomial()
+            except Exception:
+                pass
+            add("ftrace", (P, m, a), lambda: el.trace(), "algebra:FiniteBifieldElement.trace")
+            el2 = F(a)
+            try:
+                el2.conjugates()
+            except Exception:
+                pass
+            add("ftrace", (P, m, a), lambda: el2.trace(), "algebra:FiniteBifieldElement.trace")
+            if a:
+                add("finv", (P, m, a), lambda: el2.inverse().value, "algebra:FiniteBifieldElement.inverse")
+            add("fmul", (P, a, a), lambda: (el2 * el).value, "algebra:FiniteBifieldElement.__mul__")
         # primitive element as published
         ops.append(Op("primel %d %d" % (P, m), str(F.primitive_element().value), info={"site": "algebra:FiniteBifield.primitive_element", "config": {"m": m}}))
     return ops
@@ -328,6 +349,27 @@ def search(ctx, mismatches, broken, prop_fail):
                 if w:
                     viol("algebra:FiniteBifieldElement", {"m": m, "a": a, "b": b}, "GF(2^%d) a=%d b=%d: %s" % (m, a, b, w), ["finv %d %d %d" % (args[0] if args else 0, m, a)])
                     break
+            if verb == "ftrace":
+                # trace by definition (sum of the m Frobenius powers, independent bit-mask arithmetic) on a fresh element and on one
+                # element object after minimal_polynomial() / conjugates() have been called on it
+                Ft = A.FiniteBifield(m); Pm = int(Ft.modulus.value)
+                t_, x_ = 0, a
+                for _i in range(m):
+                    t_ ^= x_; x_ = o_fmul(Pm, x_, x_)
+                for hist in ("fresh", "minimal_polynomial", "conjugates"):
+                    el = Ft(a)
+                    try:
+                        if hist == "minimal_polynomial":
+                            el.minimal_polynomial()
+                        elif hist == "conjugates":
+                            el.conjugates()
+                        got_t = el.trace()
+                    except Exception as e_:
+                        got_t = "raises %s" % type(e_).__name__
+                    if got_t != t_:
+                        viol("algebra:FiniteBifieldElement.trace", {"m": m, "a": a, "history": hist}, "GF(2^%d): trace(%d) = %s%s, the sum of the %d Frobenius powers is %d" % (
+                            m, a, got_t, "" if hist == "fresh" else " after %s() on the same element object" % hist, m, t_), ["ftrace %d %d %d" % (Pm, m, a)])
+                        break
             try:
                 w = _minpoly_law(A, m, a)
             except Exception as e:
